@@ -208,8 +208,11 @@ func (c *relsCtx) step(op Op, i int) string {
 		for k := 1; k <= c.nph; k++ {
 			td.SetImageFromData(fmt.Sprintf("s%d", k), tinyPNG(60+k+n), nil)
 		}
+		// keep = "only": one rendering; "first" / "second": the SAME engine renders the template with the same data
+		// twice and the first / the second document is the one the behaviour goes on with
 		var out *document.Document
 		var err error
+		render := func() (*document.Document, error) { return nil, fmt.Errorf("no engine") }
 		switch op.Str("via") {
 		case "renderer":
 			p := c.tmp("tpl", ".docx")
@@ -221,19 +224,29 @@ func (c *relsCtx) step(op Op, i int) string {
 			if _, err = tr.LoadTemplateFromFile("t", p); err != nil {
 				return "err-load"
 			}
-			out, err = tr.RenderTemplate("t", td)
+			render = func() (*document.Document, error) { return tr.RenderTemplate("t", td) }
 		case "legacy":
 			e := document.NewTemplateEngine()
 			if _, err = e.LoadTemplateFromDocument("t", d); err != nil {
 				return "err-load"
 			}
-			out, err = e.RenderToDocument("t", td)
+			render = func() (*document.Document, error) { return e.RenderToDocument("t", td) }
 		default:
 			e := document.NewTemplateEngine()
 			if _, err = e.LoadTemplateFromDocument("t", d); err != nil {
 				return "err-load"
 			}
-			out, err = e.RenderTemplateToDocument("t", td)
+			render = func() (*document.Document, error) { return e.RenderTemplateToDocument("t", td) }
+		}
+		out, err = render()
+		if keep := op.Str("keep"); err == nil && (keep == "first" || keep == "second") {
+			o2, err2 := render()
+			if err2 != nil || o2 == nil {
+				return "err-render2"
+			}
+			if keep == "second" {
+				out = o2
+			}
 		}
 		if err != nil || out == nil {
 			return "err-render"
